@@ -81,6 +81,11 @@ def plan(ck):
     # (one project per word: a short list)
     # (no quote characters: bfg9000 parses the real gcc's `-v` output, which
     # is not sh-quoted, and refuses such a command at configure time)
+    for pos in ('sym_arg', 'symgen_arg'):
+        by[pos] = sorted(set(by[pos] + ['a b', 'two words.txt', 'x $HOME y',
+                                        'a$b', '$@', 'a @b', '$$', 'a $(x)']))
+    # (the word is not the subject: which step receives it is)
+    by['dep_link'] = [w for w in few if w][:12 if ck.quick else 60]
     by['tool_word'] = [w for w in few if w and "'" not in w and
                        '"' not in w][:24 if ck.quick else 120]
     return by
